@@ -322,6 +322,9 @@ impl Module for M {
                 if small {
                     ctx.count("one:small");
                     let pts: Vec<Point> = r.points().collect();
+                if r.size.width as u64 * r.size.height as u64 <= 400 {
+                    iter_protocol_check(ctx, "iterator-protocol:rectangle-points", r.points(), 400);
+                }
                     // contains() bitmap over the box plus a 2 px margin, row-major
                     let mut bits = String::new();
                     let mut expect_pts = Vec::new();
@@ -395,6 +398,9 @@ impl Module for M {
                     ctx.count("pts:larger-than-12x12");
                 }
                 let pts: Vec<Point> = r.points().collect();
+                if r.size.width as u64 * r.size.height as u64 <= 400 {
+                    iter_protocol_check(ctx, "iterator-protocol:rectangle-points", r.points(), 400);
+                }
                 if !pts.is_empty() {
                     ctx.nontrivial(op);
                 }
